@@ -112,6 +112,18 @@ pub mod num_bigint {
         pub fn from_signed_bytes_le(bytes: &[u8]) -> (r: BigInt)
             ensures r@ == signed_le(bytes@)
         { unimplemented!() }
+        /// sign and magnitude as little-endian bytes (ASSUMED, from the crate's documentation): at least one byte
+        /// and no superfluous zero byte at the high end
+        #[verifier::external_body]
+        pub fn to_bytes_le(&self) -> (r: (Sign, Vec<u8>))
+            ensures r.0 == sign_of(self@), r.1@.len() >= 1, unsigned_le(r.1@) == abs(self@),
+                    r.1@.len() == 1 || r.1@.last() != 0, r.1@.len() < 0x1000_0000_0000_0000
+        { unimplemented!() }
+        /// big-endian magnitude bytes with a sign (ASSUMED, from the crate's documentation)
+        #[verifier::external_body]
+        pub fn from_bytes_be(sign: Sign, bytes: &[u8]) -> (r: BigInt)
+            ensures sign is Plus ==> r@ == unsigned_be(bytes@)
+        { unimplemented!() }
     }
     pub open spec fn p256(n: nat) -> int decreases n { if n == 0 { 1 } else { 256 * p256((n - 1) as nat) } }
     pub open spec fn unsigned_le(bytes: Seq<u8>) -> int decreases bytes.len() {
@@ -122,6 +134,78 @@ pub mod num_bigint {
     }
     /// every byte complemented
     pub open spec fn flipped(bytes: Seq<u8>) -> Seq<u8> { Seq::new(bytes.len(), |j: int| !bytes[j]) }
+    pub proof fn lemma_p256_pos(n: nat) ensures p256(n) >= 1 decreases n { if n > 0 { lemma_p256_pos((n - 1) as nat); } }
+    pub proof fn lemma_p256_mono(a: nat, b: nat) requires a <= b ensures p256(a) <= p256(b) decreases b
+    {
+        if a < b { lemma_p256_mono(a, (b - 1) as nat); lemma_p256_pos((b - 1) as nat); }
+    }
+    /// 256^k == 2^(8k)
+    pub proof fn lemma_p256_pow2(k: nat) ensures p256(k) == vstd::arithmetic::power2::pow2(8 * k) decreases k
+    {
+        if k == 0 { vstd::arithmetic::power2::lemma2_to64(); } else {
+            lemma_p256_pow2((k - 1) as nat);
+            vstd::arithmetic::power2::lemma2_to64();
+            vstd::arithmetic::power2::lemma_pow2_adds(8, (8 * (k - 1)) as nat);
+            assert(8 * k == 8 + 8 * (k - 1));
+        }
+    }
+    /// a byte string whose last (most significant) byte is not zero is at least 256^(len-1)
+    pub proof fn lemma_unsigned_le_lower(s: Seq<u8>)
+        requires s.len() >= 1, s.last() != 0
+        ensures unsigned_le(s) >= p256((s.len() - 1) as nat)
+        decreases s.len()
+    {
+        if s.len() == 1 {
+            assert(s.drop_first().len() == 0);
+            assert(unsigned_le(s.drop_first()) == 0);
+        } else {
+            let t = s.drop_first();
+            assert(t.last() == s.last());
+            lemma_unsigned_le_lower(t);
+        }
+    }
+    /// minimal little-endian bytes of a value below 256^k (k >= 1) are at most k bytes
+    pub proof fn lemma_minimal_le_len(s: Seq<u8>, k: nat)
+        requires s.len() >= 1, s.len() == 1 || s.last() != 0, unsigned_le(s) < p256(k), k >= 1
+        ensures s.len() <= k
+    {
+        if s.len() > k {
+            lemma_unsigned_le_lower(s);
+            lemma_p256_mono(k, (s.len() - 1) as nat);
+        }
+    }
+    /// a byte string that encodes 0 little-endian consists of zero bytes, so it encodes 0 big-endian too
+    pub proof fn lemma_unsigned_le_zero_bytes(s: Seq<u8>)
+        requires unsigned_le(s) == 0
+        ensures forall|i: int| 0 <= i < s.len() ==> #[trigger] s[i] == 0
+        decreases s.len()
+    {
+        if s.len() > 0 {
+            lemma_unsigned_le_bound(s.drop_first());
+            lemma_unsigned_le_zero_bytes(s.drop_first());
+            assert forall|i: int| 0 <= i < s.len() implies #[trigger] s[i] == 0 by {
+                if i > 0 { assert(s.drop_first()[i - 1] == s[i]); }
+            }
+        }
+    }
+    pub proof fn lemma_unsigned_be_zero(s: Seq<u8>)
+        requires unsigned_le(s) == 0
+        ensures unsigned_be(s) == 0
+        decreases s.len()
+    {
+        lemma_unsigned_le_zero_bytes(s);
+        lemma_unsigned_be_of_zero_bytes(s);
+    }
+    pub proof fn lemma_unsigned_be_of_zero_bytes(s: Seq<u8>)
+        requires forall|i: int| 0 <= i < s.len() ==> #[trigger] s[i] == 0
+        ensures unsigned_be(s) == 0
+        decreases s.len()
+    {
+        if s.len() > 0 {
+            assert forall|i: int| 0 <= i < s.drop_last().len() implies #[trigger] s.drop_last()[i] == 0 by { assert(s.drop_last()[i] == s[i]); }
+            lemma_unsigned_be_of_zero_bytes(s.drop_last());
+        }
+    }
     pub proof fn lemma_unsigned_le_bound(s: Seq<u8>)
         ensures 0 <= unsigned_le(s) < p256(s.len())
         decreases s.len()
